@@ -40,6 +40,10 @@ def prepare(tier):
 def install_kernels(ctx, mutation=None):
     """symbolic run: translated kernels; concrete run: kernels compiled from the current .pyx.
     A kernel *mutation* (canary) is run through the translated text in both modes."""
+    if ctx.sym:
+        # numpy functions without an object loop (only reached if the code under test starts using them)
+        from .. import npfacade
+        ctx.patch(GEN, "np", npfacade.FACADE)
     if ctx.sym or mutation is not None:
         ns = translated_kernels(mutation)
         if ctx.sym:
